@@ -7,7 +7,7 @@ for t in java g++ clang++ python3 cmake ninja rsync; do command -v $t >/dev/null
 test -f /opt/veriftools/tla/tla2tools.jar
 fail=0
 for f in spec/*.tla; do
-  if ! java -cp /opt/veriftools/tla/tla2tools.jar:/opt/veriftools/tla/CommunityModules-deps.jar -DTLA-Library=spec tla2sany.SANY "$f" >/tmp/au_verif_sany.$$ 2>&1; then
+  if ! java -cp /opt/veriftools/tla/tla2tools.jar:/opt/veriftools/tla/CommunityModules-deps.jar -DTLA-Library=spec tla2sany.SANY "$f" >/tmp/au_verif_sany.$$ 2>&1 || grep -q -e "^\*\*\* Errors" -e "Semantic errors" -e "Parse Error" -e "Fatal errors" /tmp/au_verif_sany.$$; then
     echo "SANY failed on $f"; tail -5 /tmp/au_verif_sany.$$; fail=1
   fi
 done
